@@ -135,9 +135,12 @@ func (em *emitter) emitNodes(nodes []ast.Node) {
 				forLabel := em.fb.newLabel()
 				em.fb.setLabelAddr(forLabel)
 				endForLabel := em.fb.newLabel()
-				em.rangeLabels = append(em.rangeLabels, forLabel)
+				// A continue statement executes the post statement.
+				forPost := em.fb.newLabel()
+				em.rangeLabels = append(em.rangeLabels, forPost)
 				em.emitNodes(node.Body)
 				em.rangeLabels = em.rangeLabels[:len(em.rangeLabels)-1]
+				em.fb.setLabelAddr(forPost)
 				if node.Post != nil {
 					em.emitNodes([]ast.Node{node.Post})
 				}
